@@ -400,13 +400,49 @@ Definition arender (x : aoutcome * list Z) : list Z :=
   | (Some (ret, evs), dump) => ret ++ [SEP] ++ dump ++ [SEP] ++ flat_map aevent_z evs
   end.
 
+(* ---- resize(n, a[i]): the fill value is a reference to an element of the same array -------------
+   [15; b; n; i]. The tree's code ([guarded]) notices that the argument lies inside its own allocation,
+   copies it and resizes with the copy — one extra construction and destruction of that value around
+   the ordinary resize; the pinned upstream code used the reference after destroy()/realloc() had
+   invalidated it whenever the array grew (D11). The runner handles this line itself, so that the
+   histories the theorems quantify over consist of the ordinary operations only: what the repaired
+   code executes for this call IS the ordinary resize with a copied value. *)
+Definition resize_fill_alias (guarded cls : bool) (a : arr Z) (n i : Z) : option (arr Z * list (event Z)) :=
+  match read a i with
+  | Some (Live v, _) =>
+      if n <? 0 then None else
+      let '(a', evs) := resize_fill cls a n v in
+      if guarded then Some (a', (if cls then [ECtor v] else []) ++ evs ++ (if cls then [EDtor (Live v)] else []))
+      else Some (a', evs ++ (if asize a <? n then [EUb] else []))
+  | _ => None
+  end.
+
+Definition arr_step_d (guarded : bool) (vr : avariant) (cls : bool) (e : aenv) (op : list Z) : aenv * aoutcome :=
+  match op with
+  | [15; b; n; i] =>
+      match aenv_get e b with
+      | Some a => match resize_fill_alias guarded cls a n i with
+                  | Some (a', evs) => (aenv_set e b (Some a'), Some ([], evs))
+                  | None => (e, None)
+                  end
+      | None => (e, None)
+      end
+  | _ => arr_step vr cls e op
+  end.
+
+Fixpoint arr_trace_d (guarded : bool) (vr : avariant) (cls : bool) (e : aenv) (ops : list (list Z)) : list (aoutcome * list Z) :=
+  match ops with
+  | [] => []
+  | op :: rest => let '(e', o) := arr_step_d guarded vr cls e op in (o, dump_aenv e') :: arr_trace_d guarded vr cls e' rest
+  end.
+
 (* header line: [is_class; variant] (variant 1 = the tree's code, 0 = pinned upstream); an
    optional third field selects which non-class element type the implementation side
    instantiates (the model is generic in the element type) *)
 Definition arr_run (case : list (list Z)) : list (list Z) :=
   match case with
   | [cls; v] :: ops | [cls; v; _] :: ops =>
-      [] :: map arender (arr_trace (if v =? 1 then afixed else aupstream) (negb (cls =? 0)) aenv0 ops)
+      [] :: map arender (arr_trace_d (v =? 1) (if v =? 1 then afixed else aupstream) (negb (cls =? 0)) aenv0 ops)
   | _ => [[PRE]]
   end.
 
